@@ -86,13 +86,17 @@ func c19Meta(m *pdf.MetaInfo) string {
 	if m.Catalog != nil && m.Catalog.Metadata != nil && m.Catalog.Metadata.Data != nil {
 		var dc xmp.DublinCore
 		m.Catalog.Metadata.Data.Get(&dc)
-		fmt.Fprintf(&b, " metadata=%v", dc.Title)
+		fmt.Fprintf(&b, " metadata=%v plaintext=%v pad=%d", dc.Title, m.Catalog.Metadata.Plaintext, m.Catalog.Metadata.Data.PadToLength)
 	} else {
 		b.WriteString(" metadata=none")
 	}
 	fmt.Fprintf(&b, " trailer=%s", gen.Canon(m.Trailer))
 	return b.String()
 }
+
+// c19NoScan leaves the SequentialScan part out of the scenario (files whose
+// objects live in object streams).
+var c19NoScan bool
 
 // c19Scenario runs the whole reading scenario over src and returns every API
 // result in order.
@@ -133,6 +137,23 @@ func c19Scenario(d *gen.Doc, src io.ReaderAt, mode pdf.ReaderErrorHandling, refs
 			add("DecodeStream "+ref.String(), c19Hash(body), err)
 		}
 	}
+	if r != nil {
+		// the caching Decode through one Extractor which lives on after a failed
+		// call: every reference twice
+		x := pdf.NewExtractor(r)
+		for _, ref := range refs {
+			for _, label := range []string{"Decode ", "Decode-again "} {
+				val, err := pdf.Decode(pdf.CursorAt(x, nil), ref, c19Deep)
+				if errors.Is(err, pdf.ErrCycle) || errors.Is(err, pdf.ErrDepth) {
+					val, err = "(chain of references leading back)", nil
+				}
+				add(label+ref.String(), val, err)
+			}
+		}
+	}
+	if c19NoScan {
+		return steps
+	}
 	fi, err := pdf.SequentialScan(src, size)
 	if err != nil {
 		add("SequentialScan", "", err)
@@ -162,6 +183,56 @@ func c19Scenario(d *gen.Doc, src io.ReaderAt, mode pdf.ReaderErrorHandling, refs
 		}
 	}
 	return steps
+}
+
+// c19Deep is a decode function which resolves the entries of dictionaries and
+// arrays (two levels) the way the typed decoders of the library do.
+func c19Deep(c pdf.Cursor, obj pdf.Object, isDirect bool) (string, error) {
+	var walk func(obj pdf.Object, depth int) (string, error)
+	walk = func(obj pdf.Object, depth int) (string, error) {
+		n, err := c.Resolve(obj)
+		if errors.Is(err, pdf.ErrCycle) || errors.Is(err, pdf.ErrDepth) {
+			return "(back reference)", nil // generated objects may refer to themselves
+		}
+		if err != nil {
+			return "", err
+		}
+		var d pdf.Dict
+		switch v := n.(type) {
+		case pdf.Dict:
+			d = v
+		case *pdf.Stream:
+			d = v.Dict
+		case pdf.Array:
+			if depth == 0 {
+				return gen.Canon(v), nil
+			}
+			var parts []string
+			for _, e := range v {
+				s, err := walk(e, depth-1)
+				if err != nil {
+					return "", err
+				}
+				parts = append(parts, s)
+			}
+			return "[" + strings.Join(parts, " ") + "]", nil
+		default:
+			return gen.Canon(n), nil
+		}
+		if depth == 0 {
+			return gen.Canon(d), nil
+		}
+		var parts []string
+		for _, k := range d.SortedKeys() {
+			s, err := walk(d[k], depth-1)
+			if err != nil {
+				return "", err
+			}
+			parts = append(parts, string(k)+"="+s)
+		}
+		return "<<" + strings.Join(parts, " ") + ">>", nil
+	}
+	return walk(obj, 2)
 }
 
 func c19Site(label string) string {
@@ -388,6 +459,27 @@ func TestVerifC19(t *testing.T) {
 		if h.Version >= "1.7" {
 			cat["NeedsRendering"] = ind(true)
 		}
+		if h.Version >= "1.4" && rng.Chance(2, 3) {
+			// a metadata stream whose /Filter (and /DecodeParms) are indirect objects
+			xmpPacket := "<?xpacket begin=\"\xef\xbb\xbf\" id=\"W5M0MpCehiHzreSzNTczkc9d\"?>\n<x:xmpmeta xmlns:x=\"adobe:ns:meta/\"><rdf:RDF xmlns:rdf=\"http://www.w3.org/1999/02/22-rdf-syntax-ns#\"><rdf:Description rdf:about=\"\" xmlns:dc=\"http://purl.org/dc/elements/1.1/\"><dc:title><rdf:Alt><rdf:li xml:lang=\"x-default\">a title</rdf:li></rdf:Alt></dc:title></rdf:Description></rdf:RDF></x:xmpmeta>\n" + strings.Repeat(" ", 100) + "\n<?xpacket end=\"w\"?>"
+			md := kit.XDict{"Type": kit.XName("Metadata"), "Subtype": kit.XName("XML")}
+			raw := []byte(xmpPacket)
+			switch rng.Intn(3) {
+			case 0:
+				md["Filter"] = ind(kit.XArray{})
+			case 1:
+				md["Filter"] = ind(kit.XName("FlateDecode"))
+				raw = kit.Deflate(raw)
+			default:
+				md["Filter"] = ind(kit.XArray{ind(kit.XName("FlateDecode"))})
+				md["DecodeParms"] = ind(kit.XArray{nil})
+				raw = kit.Deflate(raw)
+			}
+			rev.Actions[next] = kit.XAction{Value: &kit.XStream{Dict: md, Raw: raw}}
+			cat["Metadata"] = kit.XRef{Num: next}
+			next++
+			c.R.Count("metadata_streams_with_indirect_filter", 1)
+		}
 		info["Trapped"] = ind(kit.XName("True"))
 		info["VerifKey"] = ind(kit.XString("custom value"))
 		info["Author"] = ind(kit.XString("A. U. Thor"))
@@ -448,6 +540,81 @@ func TestVerifC19(t *testing.T) {
 		c.R.Count("documents_with_indirect_entries", 1)
 		c.R.Count("readat_indices_enumerated", int64(n))
 		c.Distinct(fmt.Sprintf("ind|%s|%s|%d|%d", h.Version, rev.Kind, len(data), mi))
+	})
+
+	// object streams of more than one scanner buffer whose members are mostly
+	// references ("n g R" is read token by token): hand-written, cross-reference stream
+	r.Phase("read-faults-reference-members", r.N(16, 200), func(c *kit.Case) {
+		rng := c.Rng
+		h := &kit.XHistory{Version: "1.7", CompressRefs: true}
+		rev := kit.XRev{Actions: map[uint32]kit.XAction{}, Kind: "stream"}
+		rev.Actions[1] = kit.XAction{Value: kit.XDict{"Type": kit.XName("Catalog"), "Pages": kit.XRef{Num: 2}}}
+		rev.Actions[2] = kit.XAction{Value: kit.XDict{"Type": kit.XName("Pages"), "Kids": kit.XArray{}, "Count": int64(0)}}
+		nobj := 100 + rng.Intn(60)
+		for n := uint32(3); n < uint32(3+nobj); n++ {
+			switch rng.Intn(8) {
+			case 0:
+				rev.Actions[n] = kit.XAction{Value: int64(rng.Intn(100000))}
+			case 1:
+				rev.Actions[n] = kit.XAction{Value: kit.XArray{int64(rng.Intn(1000)), kit.XRef{Num: uint32(1 + rng.Intn(nobj))}}}
+			default:
+				rev.Actions[n] = kit.XAction{Value: kit.XRef{Num: uint32(1 + rng.Intn(99999)), Gen: uint16(rng.Intn(3))}}
+			}
+		}
+		h.Revs = []kit.XRev{rev}
+		data, info := kit.RenderHistory(rng, h, c.Index%2 == 0, nil)
+		d := &gen.Doc{Data: data}
+		var refs []pdf.Reference
+		for n := uint32(1); n < uint32(3+nobj); n++ {
+			refs = append(refs, pdf.NewReference(n, 0))
+		}
+		mi := c.Index % 3
+		mode := modes[mi]
+		c19NoScan = true
+		defer func() { c19NoScan = false }()
+		base := &c19Reader{data: d.Data}
+		r0 := c19Scenario(d, base, mode, refs)
+		n := base.calls
+		want := map[string]string{}
+		for _, s := range r0 {
+			if s.err != nil {
+				c.Violationf("fault-free-error/"+c19Site(s.label), "hand-written file with reference members: without any fault, %s fails: %v", s.label, s.err)
+				return
+			}
+			want[s.label] = s.val
+		}
+		for k := 1; k <= n; k++ {
+			for variant := 0; variant < 2; variant++ {
+				src := &c19Reader{data: d.Data, k: k, sticky: variant == 0}
+				vname := []string{"from-k-on", "only-k"}[variant]
+				got := c19Scenario(d, src, mode, refs)
+				c.R.Count("fault_runs", 1)
+				for _, s := range got {
+					c.R.Count("api_results_classified", 1)
+					site := c19Site(s.label)
+					ctx := fmt.Sprintf("hand-written file, %d objects in %d object streams, %d bytes\nmode=%s; ReadAt call %d of %d fails (%s); %s", nobj, info.ObjStreams, len(data), modeNames[mi], k, n, vname, s.label)
+					if s.err != nil {
+						switch {
+						case !errors.Is(s.err, c19Injected):
+							c.Violationf("read/"+site+"/other-error/"+modeNames[mi], "%s\nreturns an error that does not carry the source's error: %v", ctx, s.err)
+						case pdf.IsMalformed(s.err):
+							c.Violationf("read/"+site+"/blamed-on-file/"+modeNames[mi], "%s\nthe source's error is classified as a malformed file: %v", ctx, s.err)
+						default:
+							c.R.Count("io_errors_surfaced", 1)
+						}
+						continue
+					}
+					if w, known := want[s.label]; known && s.val != w {
+						c.Violationf("read/"+site+"/different-data/"+modeNames[mi]+"/object-stream-member", "%s\nreturns different data without an error:\n with fault:    %s\n without fault: %s", ctx, kit.Trunc(s.val, 500), kit.Trunc(w, 500))
+					} else if known {
+						c.R.Count("results_unchanged", 1)
+					}
+				}
+			}
+		}
+		c.R.Count("documents_with_reference_members", 1)
+		c.R.Count("readat_indices_enumerated", int64(n))
+		c.Distinct(fmt.Sprintf("refmembers|%d|%d|%d", nobj, len(data), mi))
 	})
 
 	fax = true
